@@ -78,6 +78,8 @@ R.contract(
     prop="C01",
     setup=None,
     args={"schema": ObjSchema, "predicate": Callable_(contract=CV + "is_read_only", name="is_read_only")},
+    # input invariant of a JSON Schema: `required` holds unique names (list.remove drops one occurrence only)
+    requires=["len(set(schema.get('required', []))) == len(schema.get('required', []))"],
     ghost_init={"ro": "[n for n in schema.get('properties', {}) if schema['properties'][n].get('readOnly', False) is True]"},
     ensures={
         # readOnly properties are never sent: each of them is individually forbidden in the schema handed to the generator
